@@ -123,15 +123,17 @@ func (a *nilNodeAnalysis) mayNilValue(f *ssa.Function, v ssa.Value, at *ssa.Basi
 			}
 		}
 	case *ssa.Lookup:
-		return "a map slot that may be absent", true
+		// the per-bucket index maps of the main package are R-MAPOK's subject (comma-ok tests, ensure idiom)
+		if f.Pkg != a.p.Main {
+			return "a map slot that may be absent", true
+		}
 	case *ssa.Extract:
 		if c, ok := x.Tuple.(*ssa.Call); ok {
 			if cal := c.Call.StaticCallee(); cal != nil && cal.Blocks != nil && a.p.inModule(cal) && a.mayNilResult(cal, x.Index) {
 				return "the result of " + fnName(cal), true
 			}
 		}
-		if lk, ok := x.Tuple.(*ssa.Lookup); ok && x.Index == 0 {
-			_ = lk
+		if _, ok := x.Tuple.(*ssa.Lookup); ok && x.Index == 0 && f.Pkg != a.p.Main {
 			return "a map slot that may be absent", true
 		}
 	case *ssa.Call:
